@@ -257,11 +257,13 @@ TxSeqs == UNION {{s \in [1..k -> Txs] : NoDupSeq(s)} : k \in 0..MaxTxPerBlock}
    block's own height) *)
 SeqValidOn(p, seq) == LET r == Replay(p) IN
    r.ok /\ PlayTxs(r.s, seq, {}, Height(p) + 1).ok /\ \A i \in DOMAIN seq : ~OnChain(seq[i], p)
-NewBlock(p, seq) ==
+NewBlockDev(p, seq, d) ==
   /\ blk' = blk @@ ((n + 1) :> [parent |-> p, height |-> Height(p) + 1, txs |-> seq]) /\ n' = n + 1
   /\ ltip' = IF Height(p) + 1 > LHeight THEN n + 1 ELSE ltip
   /\ Log([op |-> "mkblock", p |-> p, txs |-> seq, res |-> "ok"])
-  /\ UNCHANGED <<ptr, utxo, zu, zd, total, irr, pool, dev, applied, pruned>>
+  /\ dev' = d
+  /\ UNCHANGED <<ptr, utxo, zu, zd, total, irr, pool, applied, pruned>>
+NewBlock(p, seq) == NewBlockDev(p, seq, dev)
 MkBlock(p, seq) == n < MaxBlocks /\ p \in 1..n /\ SeqValidOn(p, seq) /\ NewBlock(p, seq)
 (* a block the ledger stores but whose transactions do not apply on its chain (C05: failed play) *)
 MkBadBlock(p, seq) ==
@@ -269,12 +271,16 @@ MkBadBlock(p, seq) ==
   /\ \A i \in DOMAIN seq : ~OnChain(seq[i], p)
   /\ NewBlock(p, seq)
 (* trace validation: whatever block the driver built *)
-MkAnyBlock(p, seq) ==
+MkAnyBlockX(p, seq, mined) ==
   /\ p \in 1..n
   /\ IF p = ltip /\ \E i \in DOMAIN seq : Confirmed(seq[i])      \* the ledger refuses a tx that is already on the trunk
      THEN UNCHANGED <<blk, n, ltip, ptr, utxo, zu, zd, total, irr, pool, dev, applied, pruned>>
           /\ Log([op |-> "mkblock", p |-> p, txs |-> seq, res |-> "fail"])
-     ELSE NewBlock(p, seq)
+     ELSE \* a block that repeats a transaction of its own chain is outside the quantifier (it arises in trace validation when
+          \* the real miner packed other transactions than the generator assumed): the rest of the behaviour is not judged
+          \* (not for a block the node mined itself: packing a confirmed transaction is what C13 forbids)
+          NewBlockDev(p, seq, IF ~mined /\ \E i \in DOMAIN seq : OnChain(seq[i], p) THEN dev \cup {"outside-quantifier"} ELSE dev)
+MkAnyBlock(p, seq) == MkAnyBlockX(p, seq, FALSE)
 
 (* ledger height against which a block's frozen inputs are judged *)
 BlockLH(b) == IF KF_FrozenLedgerHeight THEN LHeight ELSE Height(b)
